@@ -465,6 +465,9 @@ func runC16(c *Ctx) {
 	c.withOnly("R1", "R16", func() { runC17(c) })
 	// R17 (shared with C11.R1): an OPENDIR handle issued twice makes a running listing continue on another directory's lister
 	c.withOnly("R1", "R17", func() { runC11(c) })
+	// R18 / R19 (shared with C17.R2, C17.R8): the owner and the times of a listed entry
+	c.withOnly("R2", "R18", func() { runC17(c) })
+	checkTimesAreUnsigned32(c, "R19")
 	// R14 (shared with C05.R3/C10.R5): a lister's end of directory — io.EOF, bare or wrapped the way filelist itself
 	// accepts it — is answered with SSH_FX_EOF, which is what ends the client's loop successfully
 	c.withRule("R14", func() { checkErrorShapes(c, "R3") })
